@@ -220,6 +220,8 @@ BANK_MENU = [
     ("CPS #fiq", 0xF1020011), ("CPS #irq", 0xF1020012), ("CPS #svc", 0xF1020013), ("CPS #sys", 0xF102001F),
     ("MSR CPSR_c,r2", 0xE121F002), ("MRS r3,SPSR", 0xE14F3000), ("MSR SPSR_fsxc,r4", 0xE16FF004),
     ("SRSDB sp!,#abt", 0xF96D0517), ("STMDB sp!,{r8,r12,lr}", 0xE92D5100), ("LDMIA sp!,{r8,r12,lr}", 0xE8BD5100),
+    # alignment-faulting loads (SCTLR.A = 1) whose base register is banked: the Data Abort must leave every bank intact
+    ("LDR r0,[sp,#1] (aborts)", 0xE59D0001), ("LDR r0,[r8,#1] (aborts)", 0xE5980001), ("LDR r0,[lr,#2]! (aborts)", 0xE5BE0002),
 ]
 
 
@@ -246,6 +248,7 @@ def bank_instr(res, ci, start):
                 base[ix[n]] = 0x10100 + 0x40 * (k % 32)          # every physical register a distinct RAM address
             if n.startswith("spsr_"):
                 base[ix[n]] = 0x10 | (k << 8)
+        base[ix["sctlr"]] |= 2                                  # SCTLR.A: unaligned word accesses fault
         base[ix["R.R2usr"]] = 0x000001D1                        # MSR CPSR_c source: FIQ mode
         base[ix["R.R4usr"]] = 0x600001D2
         base[ix["cpsr"]] = 0x1C0 | start
